@@ -17,6 +17,9 @@ void harness(void)
     unsigned c = nondet_uint();
     VF_ASSUME(n <= VF_N);
     VF_ASSUME(c <= VF_CTX);
+#ifdef VF_EXACT_N
+    n = VF_N;                  /* one query per length */
+#endif
 #if VF_CROSS == 4
     /* a . X . b  with X one well-formed non-ASCII character (all scalar values above U+007F) */
     unsigned l = nondet_uint();
